@@ -643,13 +643,15 @@ func (cachefile *cacheFile) setData(streamID uint64, streamTime time.Time, conve
 	lastTime := streamTime
 	contentTypes := map[string][]byte{}
 	for i, convertedPacket := range convertedPackets {
-		relTime := convertedPacket.Time.Sub(lastTime)
-		bytesWritten, err := writeVarInt(writer, uint64(relTime.Microseconds()))
+		relMicros := convertedPacket.Time.Sub(lastTime).Microseconds()
+		bytesWritten, err := writeVarInt(writer, uint64(relMicros))
 		if err != nil {
 			return fmt.Errorf("failed to write relative packet time: %w", err)
 		}
 		streamSize += uint64(bytesWritten)
-		lastTime = lastTime.Add(relTime)
+		// Advance by what the reader will add, not by the exact difference:
+		// otherwise the sub-microsecond remainders add up over the chunks.
+		lastTime = lastTime.Add(time.Duration(relMicros) * time.Microsecond)
 
 		ct := convertedPacket.ContentType
 		if ct == "" {
